@@ -337,6 +337,22 @@ func c01(x *Ctx) {
 		}
 	}
 	c.Min(rImm, 2)
+	// the stress path looks the span's trace up in the decision record before it lets the stress sampler decide:
+	// a trace decided before stress relief switched on must keep its decision
+	if psi := x.P.Func("collect", "InMemCollector", "ProcessSpanImmediately"); psi != nil && psi.Blocks != nil {
+		c.Examined++
+		r := eng.Explore(eng.Query{Fn: psi, Classify: func(in ssa.Instruction, _ eng.Facts) eng.Event {
+			if _, ok := eng.IsCall(in, nCheckSpan); ok {
+				return eng.EvKill
+			}
+			if cl, ok := in.(ssa.CallInstruction); ok && strings.HasSuffix(eng.CalleeName(cl), "StressReliever).GetSampleRate") {
+				return eng.EvSink
+			}
+			return eng.EvNone
+		}})
+		c.Decide(len(r.Hits) == 0, rImm, "ProcessSpanImmediately/lookup-first", x.PosOf(psi.Pos()), "the decision record is consulted before the stress sampler",
+			"on the stress path the stress sampler decides before (or without) the look-up in the decision record: a span of a trace that was kept before stress relief switched on is dropped, and the drop that is recorded shadows the kept decision for later spans")
+	}
 
 	// ---- clause 4: the buffer is worker-confined -------------------------------
 	x.workerConfined("C01.buffer-confined", funcs)
